@@ -5,6 +5,7 @@ import FitProps.C08
 import FitProps.C13
 import FitProps.C14
 import FitProps.C16
+import FitProps.LinksApi
 /-!
 # C03 — Decoding arbitrary bytes never panics, hangs or fakes success
 
@@ -13,7 +14,7 @@ that the driver runs against the real code (families `decapi`, `dechist`). They 
 option combination, every factory table and every sequence of API calls.
 
 PROPERTY THEOREMS (audited by ./check): C03_no_panic, C03_no_hang, C03_sticky, C03_error_sticks, C03_sticky_run,
-C03_no_fake_success, C03_no_fake_success_clean, C03_ctx_cancel, C03_ctx_no_fake_success, C03_raw_total, C03_readbuffer_total, C03_listener_total, C03_consts
+C03_no_fake_success, C03_no_fake_success_msgs, C03_no_fake_success_clean, C03_no_panic_ops_any_reader, C03_ctx_cancel, C03_ctx_no_fake_success, C03_raw_total, C03_readbuffer_total, C03_listener_total, C03_consts
 -/
 namespace Fit.C03
 open Fit.DecApi
@@ -94,6 +95,45 @@ theorem C03_no_fake_success (o : Opts) (bytes : List Nat) (hb : IsBytes bytes) (
     ∃ hdr recs c0 c1, bytes = hdr ++ recs ++ [c0, c1] ++ s'.rest ∧ HdrOK o.chk 0 hdr f.hdr ∧
       f.hdr.dataSize ≤ recs.length ∧ f.crc = c0 + 256 * c1 ∧ (o.chk = true → Fit.Crc.write 0 recs = f.crc) :=
   (decode_fresh_accepted o bytes hb hf hlen s' f evs h).split
+
+/-- **No fake success, the messages.** `C03_no_fake_success` constrains the framing (header, a byte string `recs` covering
+the declared data size, CRC); this theorem says what the RETURNED MESSAGES are. If `Decode` on a new decoder returns a FIT,
+then the reader-client model (D) (`DecProg.decodeLoop`, one sequence: header, `for d.cur < dataSize { decodeMessage }`,
+CRC — its message events carry, for every record it reads, the header byte, the definition in force and exactly the bytes
+`ReadN` delivered for each field and developer field) ends its run on the same bytes WITHOUT error, and the returned FIT —
+header, every message with every decoded VALUE, developer fields, expanded components, CRC — together with the listener
+calls made (reserved byte of definitions zeroed: (D) does not observe it) is `apiOf` of (D)'s events: the decoder's own
+value-level functions applied to the bytes those record events carry and to nothing else of the stream. So no message of a
+returned FIT comes from anywhere but a record that was read in full inside the loop over the declared data size, in
+order, and none of those records is missing. Hypotheses beyond `C03_no_fake_success`: the factory is in the common domain
+of the two models (`facBtOK`: valid base types; `facFdOK`: the three fields of field_description as in the profile —
+`Link_stdFactory_ok`: met by the regenerated standard factory). NOT in this statement: an explicit bound on how far the
+last record may run past the declared data size (it is less than one record; KF-C07-4 is about that overrun). -/
+theorem C03_no_fake_success_msgs (o : Opts) (bytes : List Nat) (hb : IsBytes bytes) (hf : FacOK o.fac) (hlen : bytes.length < 4294967296)
+    (hbt : Fit.Link.facBtOK o.fac = true) (hfd : Fit.Link.facFdOK o.fac = true)
+    (s' : St) (f : Fit) (evs : List Event) (h : stepDecode (St.fresh o bytes) = (s', .fit f, evs)) :
+    (Fit.ReadBuffer.runExact (Fit.DecProg.decodeLoop o.chk 1 true []) bytes).status = none ∧
+    Fit.Link.apiOf o (Fit.ReadBuffer.runExact (Fit.DecProg.decodeLoop o.chk 1 true []) bytes) = [(.fit f, evs.map Fit.Link.normEvent)] ∧
+    ∃ hdr recs c0 c1, bytes = hdr ++ recs ++ [c0, c1] ++ s'.rest ∧ HdrOK o.chk 0 hdr f.hdr ∧
+      f.hdr.dataSize ≤ recs.length ∧ f.crc = c0 + 256 * c1 ∧ (o.chk = true → Fit.Crc.write 0 recs = f.crc) := by
+  have hl := Fit.Links.Link_decode_is_apiOf o bytes hb hlen hf hbt hfd s' f evs h
+  refine ⟨?_, hl, C03_no_fake_success o bytes hb hf hlen s' f evs h⟩
+  -- a run of (D) that ended with an error would put an error entry last in `apiOf`
+  cases hs : (Fit.ReadBuffer.runExact (Fit.DecProg.decodeLoop o.chk 1 true []) bytes).status with
+  | none => rfl
+  | some e =>
+    exfalso
+    unfold Fit.Link.apiOf at hl
+    rw [hs] at hl
+    simp only at hl
+    have := congrArg List.getLast? hl
+    simp at this
+
+/-- non-vacuity: the one-record file `P` under the empty factory meets the hypotheses; its FIT has one message -/
+example : Fit.Link.facBtOK ([] : Factory) = true ∧
+    (Fit.Link.apiOf {} (Fit.ReadBuffer.runExact (Fit.DecProg.decodeLoop true 1 true [])
+      [14, 32, 154, 82, 11, 0, 0, 0, 46, 70, 73, 84, 30, 8, 64, 0, 0, 0, 0, 1, 0, 1, 0, 0, 4, 84, 47])).map
+      (fun p => match p.1 with | .fit f => f.msgs.length | _ => 99) = [1] := by decide +kernel
 
 /-- the same from every state at a sequence boundary (per-sequence state and look-ups as new — C07 shows that every
 boundary a history reaches is such a state) -/
@@ -224,6 +264,24 @@ theorem C03_readbuffer_total :
   · intro chk fuel b s size hb
     exact Fit.DecProg.runRB_no_panic _ (Fit.C08.C08_request_bound chk fuel true []) (Fit.DecProg.keeps_decodeLoop chk fuel true [])
       _ _ (Fit.ReadBuffer.reset_inv b s size) hb
+
+/-- **Every entry point over ANY reader.** The decoder object driven through any list of calls — `Decode`,
+`DecodeWithContext` (context live / cancelled before / cancelled during the call), `PeekFileHeader`, `PeekFileId`, `Discard`,
+`Next`, `CheckIntegrity` — as a client of the read buffer (`FitModel/DecHist.lean`), over a reader that fragments the stream
+anyhow and fails anywhere, with any buffer size, from any state a previous `Reset` left the buffer in: no call makes `ReadN`
+panic (every request is at most `reservedbuf` bytes, and the first failed request is the last request: the error is
+sticky). Termination: the program is a finite tree of requests interpreted by structural recursion. -/
+theorem C03_no_panic_ops_any_reader (chk : Bool) (fuelCi : Nat) (ops : List Fit.DecHist.Op) (b : Fit.ReadBuffer.RB)
+    (s : Fit.ReadBuffer.Sched) (size : Int) (hb : Fit.ReadBuffer.IsBytes (Fit.ReadBuffer.bytesOf s)) :
+    Fit.ReadBuffer.runRB (Fit.DecHist.history chk fuelCi ops) (b.reset s size) ≠ .panic :=
+  (Fit.DecHist.s_history chk fuelCi ops).no_panic _ _ (Fit.ReadBuffer.reset_inv b s size) hb
+
+/-- non-vacuity: a reader that delivers 20 bytes of a file and then fails with its own error 7, calls PeekFileId, Discard,
+Decode: the peek returns the failure, the others return it again -/
+example : (match Fit.ReadBuffer.runRB (Fit.DecHist.history true 3 [.peekFileId, .discard, .decode])
+      (Fit.ReadBuffer.RB.fresh [⟨Fit.C08.kfBytes.take 20, none⟩, ⟨[], some (.custom 7)⟩] 0) with
+    | .done o => o.res | .panic => []) =
+    [.err (.dec (.io (.custom 7))), .err (.dec (.io (.custom 7))), .err (.dec (.io (.custom 7)))] := by decide +kernel
 
 /-- **Feeding a decoded stream to the typed-file listener is total.** For every byte stream, option set, factory table
 and history of API calls, let `msgs` be the messages the decoder hands to its message listeners (as `proto.Message`s:
